@@ -382,9 +382,12 @@ StrictCookie(v) ==
         ELSE pcs[k] # <<>> /\ pcs[k][1] = SP /\ StrictCookiePiece(Tail(pcs[k]))
 RECURSIVE DropSP(_)
 DropSP(s) == IF s # <<>> /\ s[1] = SP THEN DropSP(Tail(s)) ELSE s
+\* a list every element of which is an address once the optional white space the list syntax allows around the commas
+\* (RFC 7230 section 7: OWS "," OWS) is removed.  Until round 7 only SP before an element was allowed here, which made most
+\* recorded lists "lenient" (tabs, blanks before the comma) and let a seeded "address:port" reading of the elements through.
 StrictXff(v) ==
   LET ents == Split(v, COMMA)
-  IN \A k \in 1..Len(ents) : IsIp(IF k = 1 THEN ents[1] ELSE DropSP(ents[k]))
+  IN \A k \in 1..Len(ents) : IsIp(Trim(ents[k]))
 Lenient(a) ==
   (IF AllIn(a.path, UriChar) /\ AllIn(a.query, UriChar) THEN <<>> ELSE <<"target">>)
   \o (LET c == FirstValue(a.headers, N_COOKIE) IN IF c.has /\ c.v # <<>> /\ ~StrictCookie(c.v) THEN <<"cookies">> ELSE <<>>)
